@@ -62,6 +62,22 @@ def run_lib(tx, idx, spent, flags, serving):
         set_libsecp256k1_serving(serving=prev)
 
 
+def _sigop_in_script_sig(script_sig_hex: str) -> bool:
+    """an OP_CHECKSIG..OP_CHECKMULTISIGVERIFY at an opcode boundary of the script_sig (pushes skipped)"""
+    s, i = bytes.fromhex(script_sig_hex), 0
+    while i < len(s):
+        op = s[i]
+        i += 1
+        if op <= 0x4B:
+            i += op
+        elif op in (0x4C, 0x4D, 0x4E):
+            w = 1 << (op - 0x4C)
+            i += w + int.from_bytes(s[i : i + w], "little")
+        elif 0xAC <= op <= 0xAF:
+            return True
+    return False
+
+
 def check_spend(case):
     r = case["recipe"]
     tx, idx, spent, flags, info = gs.materialize(r)
@@ -69,6 +85,10 @@ def check_spend(case):
     code = cs.verify_input(tx, idx, spent, flags, stats)
     got = run_lib(tx, idx, spent, flags, case["backend"])
     want = "accept" if code == "OK" else "reject"
+    if got != want and want == "accept" and "CONST_SCRIPTCODE" in flags and _sigop_in_script_sig(tx["vin"][idx]["script_sig"]):
+        # the one documented divergence: under CONST_SCRIPTCODE the library refuses a signature-check opcode anywhere in a script_sig, executed or
+        # not (engine/flags.py), where Core only refuses one it executes; a policy flag, and the stricter reading
+        return Outcome(False, (r["form"], "const-scriptcode-sigop-in-script_sig"))
     if got != want:
         fl = set(flags)
         cls = "consensus" if fl <= set(gs.CONSENSUS) else "policy"
@@ -95,8 +115,9 @@ def check_program(case):
     except cs.ScriptErr as e:
         want = ("error", e.code)
     lstack = [bytes.fromhex(x) for x in case["stack"]]
+    lib_tx, lib_flags = build.tx(tx, check_validity=False), to_script_flags(",".join(flags) if flags else "NONE")
     try:
-        verify_script(script, lstack, 5, build.tx(tx, check_validity=False), 0, to_script_flags(",".join(flags) if flags else "NONE"), case["segwit"], False)
+        verify_script(script_bytes=script, stack=lstack, prevout_value=5, tx=lib_tx, i=0, flags=lib_flags, segwit=case["segwit"], final=False)
         got = ("ok", [bytes(x).hex() for x in lstack])
     except BTClibValueError:
         got = ("error", None)
